@@ -768,7 +768,8 @@ def check_derived_views(ctx, cfg, rule="C01.V"):
     for b in db.bodies:
         if b["kind"] not in ("Fn", "AssocFn", "Closure") or ctx.is_helper(cfg, b):
             continue
-        if not any(s_.get("k") == "assign" and s_["rv"].get("k") in ("ref", "rawptr") and s_["rv"]["p"]["p"] and s_["rv"]["p"]["p"][-1] == "*" for blk in b["mir"]["blocks"] for s_ in blk["stmts"]):
+        if not any(s_.get("k") == "assign" and s_["rv"].get("k") in ("ref", "rawptr") and s_["rv"]["p"]["p"] and s_["rv"]["p"]["p"][-1] == "*" for blk in b["mir"]["blocks"] for s_ in blk["stmts"]) \
+                and not any(blk["term"]["k"] == "call" and blk["term"]["f"].get("k") == "fn" and "from_raw_parts" in blk["term"]["f"]["def"] for blk in b["mir"]["blocks"]):
             continue
         a = ctx.analysis(cfg, b["key"])
         sites = []
@@ -790,6 +791,20 @@ def check_derived_views(ctx, cfg, rule="C01.V"):
             if size is None:
                 continue
             sites.append((i, d, ext, p_[2] + off0, size, par, pt))
+        # slices put together from a pointer into such an object and a length: the same obligation with size = len * size_of::<T>()
+        for j, c in enumerate(a.calls):
+            if c.fn not in ("core::slice::from_raw_parts", "core::slice::from_raw_parts_mut", "core::ptr::slice_from_raw_parts", "core::ptr::slice_from_raw_parts_mut"):
+                continue
+            if c.ret is None or c.ret[0] != "P" or c.ret[3] is None or not c.targs:
+                continue
+            r = resolve(a, b, c.ret)
+            if r is None:
+                continue
+            ext, off0, par = r
+            esz = a.tenv.size(c.targs[0])
+            if esz is None:
+                continue
+            sites.append((1000 + j, {"facts": c.facts}, ext, c.ret[2] + off0, c.ret[3] * esz, par, {"k": "slice", "t": c.targs[0]}))
         for i, d, ext, off, size, par, pt in sites:
             n += 1
             if not off.t and size == ext:
